@@ -201,14 +201,6 @@ func DisplayRefUpdate(cmd *cobra.Command, code byte, summary, errStr, from, to s
 	cmd.Printf(" %c %-17s %-11s -> %s%s\n", code, summary, from, to, errStr)
 }
 
-func bytesSliceToMap(sl [][]byte) (m map[string]struct{}) {
-	m = make(map[string]struct{})
-	for _, b := range sl {
-		m[string(b)] = struct{}{}
-	}
-	return m
-}
-
 func Quickref(oldSum, sum []byte, fastForward bool) string {
 	a := hex.EncodeToString(oldSum)[:7]
 	b := hex.EncodeToString(sum)[:7]
@@ -224,9 +216,10 @@ func saveFetchedRefs(
 ) ([]*conf.Refspec, error) {
 	someFailed := false
 	// if a remote tag point to an existing object then save that tag
-	cm := bytesSliceToMap(fetchedCommits)
 	for r, sum := range maybeSaveTags {
-		if _, ok := cm[string(sum)]; ok || objects.CommitExist(db, sum) {
+		// a commit kept without its table (beyond the depth of this or an earlier
+		// fetch) does not count: the tag would point at a commit that can't be read
+		if com, err := objects.GetCommit(db, sum); err == nil && objects.TableExist(db, com.Table) {
 			_, err := ref.GetRef(rs, r)
 			if err != nil {
 				ref, err := conf.NewRefspec(r, r, false, false)
